@@ -60,6 +60,7 @@ type Program struct {
 	modFuncs []*ssa.Function
 	cg       *callgraph.Graph
 	cgTime   time.Duration
+	ren      *renameInfo
 }
 
 // Load loads ./... of cfg.Dir. Any load or type error is returned: the checker fails closed.
@@ -270,11 +271,18 @@ func (p *Program) Func(rel, name string) *ssa.Function {
 		}
 		sel := p.SSA.MethodSets.MethodSet(t).Lookup(sp.Pkg, m)
 		if sel == nil {
-			return nil
+			pre := ""
+			if ptr {
+				pre = "*"
+			}
+			return p.renames().byKey[rel+"|"+pre+recv+"|"+m]
 		}
 		return p.SSA.MethodValue(sel)
 	}
-	return sp.Func(name)
+	if f := sp.Func(name); f != nil {
+		return f
+	}
+	return p.renames().byKey[rel+"||"+name]
 }
 
 // Position formats a token.Pos relative to the repository root.
